@@ -403,8 +403,24 @@ class Executor(ExprMixin, StmtMixin, LoopMixin):
         return n, m
 
     def assume_allocated(self, st, v: Val):
-        if isinstance(v.ty, T.Ref) and not v.is_py:
+        """the value (a reference, or references inside an Optional / a tuple) denotes objects that exist now"""
+        if v.is_py:
+            return
+        if isinstance(v.ty, T.Ref):
             st.assume(self.is_allocated(st, v.term))
+        elif isinstance(v.ty, T.Opt) and isinstance(v.ty.inner, (T.Ref, T.Tuple)):
+            s_ = v.ty.sort()
+            sub = State()
+            sub.alloc = st.alloc
+            self.assume_allocated(sub, Val(v.ty.inner, s_.val(v.term)))
+            for f in sub.pc:
+                st.assume(z3.Implies(s_.is_some(v.term), f))
+            st.alloc = sub.alloc
+        elif isinstance(v.ty, T.Tuple):
+            ts = v.ty.sort()
+            for k, it in enumerate(v.ty.items):
+                if isinstance(it, (T.Ref, T.Opt, T.Tuple)):
+                    self.assume_allocated(st, Val(it, ts.accessor(0, k)(v.term)))
 
     # ---- globals ------------------------------------------------------------------------------
     def resolve_global(self, n, node, st):
@@ -978,6 +994,11 @@ def _f_fresh_ref(ex, node, st):
     v = ex.eval(node.args[0], st)
     old = ex.old_state
     t0 = old.alloc if (old is not None and old.alloc is not None) else z3.Int("now0")
+    if isinstance(v.ty, T.Opt) and not v.is_py:  # None is not a fresh object
+        s_ = v.ty.sort()
+        return Val(T.BOOL, z3.And(s_.is_some(v.term), BIRTH(s_.val(v.term)) >= t0))
+    if v.is_py and v.py is None:
+        return Val.const(False)
     return Val(T.BOOL, BIRTH(lift(v)) >= t0)
 
 
@@ -989,6 +1010,11 @@ def _f_typed_forall(ex, node, st):
 def _f_allocated(ex, node, st):
     """allocated(x): x is in the CURRENT allocation set (objects created so far)."""
     v = ex.eval(node.args[0], st)
+    if isinstance(v.ty, T.Opt) and not v.is_py:  # None counts as allocated (there is nothing that could be missing)
+        s_ = v.ty.sort()
+        return Val(T.BOOL, z3.Implies(s_.is_some(v.term), ex.is_allocated(st, s_.val(v.term))))
+    if v.is_py and v.py is None:
+        return Val.const(True)
     return Val(T.BOOL, ex.is_allocated(st, lift(v)))
 
 
